@@ -104,13 +104,100 @@ def random_cases(ctx, n, focus=None, types=None, colors=None, hi=6, floor_bias=0
         yield (rand_names(r, focus), cs, r.randrange(8), 'random')
 
 
+class _Probe:
+    """a throw-away context for re-evaluating an oracle while shrinking: records violations, ignores the bookkeeping"""
+
+    def __init__(self, ctx):
+        self.violations = []
+        self.rng, self.tier = ctx.rng, ctx.tier
+
+    def violation(self, what, case):
+        self.violations.append((what, case))
+
+    def case(self, *a, **k):
+        pass
+
+    def count(self, *a, **k):
+        pass
+
+
+def shrink(ctx, names, cs, act, seed, oracle, what, budget=250):
+    """greedy minimisation of a failing single-step case: fewer functions, smaller grid, emptier cells, empty hands -- every candidate is
+    re-run on the real code under the same seed and kept only if the oracle still reports the same kind of violation"""
+    key = what[:28]
+
+    def fails(n, c, a):
+        pr = _Probe(ctx)
+        try:
+            kind, val, log, tape = impl.run_transition(n, c, a, True, seed=seed)
+            oracle(pr, n, c, a, kind, val, log, tape)
+        except Exception:  # noqa: BLE001
+            return False
+        return any(w[:28] == key for w, _ in pr.violations)
+    best = (list(names), cs, act)
+    runs = 0
+    changed = True
+    while changed and runs < budget:
+        changed = False
+        n, (g, p, o, held), a = best
+        h, w = gen.shape_of(g)
+        cands = []
+        for i in range(len(n)):
+            if len(n) > 1:
+                cands.append((n[:i] + n[i + 1:], (g, p, o, held), a))
+        if h > 1 and p[0] != h - 1:
+            cands.append((n, (g[:-1], p, o, held), a))
+        if h > 1 and p[0] != 0:
+            cands.append((n, (g[1:], (p[0] - 1, p[1]), o, held), a))
+        if w > 1 and p[1] != w - 1:
+            cands.append((n, (tuple(row[:-1] for row in g), p, o, held), a))
+        if w > 1 and p[1] != 0:
+            cands.append((n, (tuple(row[1:] for row in g), (p[0], p[1] - 1), o, held), a))
+        if held != gen.NONE:
+            cands.append((n, (g, p, o, gen.NONE), a))
+        for y in range(h):
+            for x in range(w):
+                c = g[y][x]
+                if c != gen.FLOOR:
+                    cands.append((n, (gen.set_cell(g, (y, x), gen.FLOOR), p, o, held), a))
+                    if c[3] is not None:
+                        cands.append((n, (gen.set_cell(g, (y, x), c[3]), p, o, held), a))
+        for cand in cands:
+            runs += 1
+            if runs > budget:
+                break
+            if fails(*cand):
+                best = cand
+                changed = True
+                break
+    return best
+
+
 def run_cases(ctx, cases, oracle, nontrivial=None):
     """runs impl (with recording rngs) on every case, applies the oracle, then compares with the model in one batch"""
     reqs, metas = [], []
+    shrunk = 0
     for names, cs, act, origin in cases:
         own = True
-        kind, val, log, tape = impl.run_transition(names, cs, act, own, seed=ctx.rng.randrange(1 << 30))
+        seed = ctx.rng.randrange(1 << 30)
+        kind, val, log, tape = impl.run_transition(names, cs, act, own, seed=seed)
+        before = len(ctx.violations)
         oracle(ctx, names, cs, act, kind, val, log, tape)
+        if len(ctx.violations) > before and shrunk < 3:
+            # the first failing cases of a run are minimised: the replay names the smallest state found that still fails the same way
+            shrunk += 1
+            what, case = ctx.violations[before]
+            try:
+                n2, cs2, a2 = shrink(ctx, names, cs, act, seed, oracle, what)
+                if (n2, cs2, a2) != (list(names), cs, act):
+                    pr = _Probe(ctx)
+                    k2, v2, l2, t2 = impl.run_transition(n2, cs2, a2, True, seed=seed)
+                    oracle(pr, n2, cs2, a2, k2, v2, l2, t2)
+                    hit = next(((w, c) for w, c in pr.violations if w[:28] == what[:28]), None)
+                    if hit is not None and isinstance(hit[1], dict):
+                        ctx.violations[before] = (hit[0], dict(hit[1], minimised_from=case.get('state') if isinstance(case, dict) else None, run_seed=seed))
+            except Exception:  # noqa: BLE001  (shrinking is a convenience: never let it disturb the verdict)
+                pass
         nt = nontrivial(names, cs, act, kind, val) if nontrivial else (kind != 'ok' or val != cs)
         ctx.count('origin', origin)
         ctx.count('action', impl.ACTS[act].name)
